@@ -35,7 +35,7 @@ CLAIMED = {
         "Coq proof by structural induction (same invariant as C04) over the evaluation model + correspondence + all-assignments oracle",
         "Theorems C06_invalid_always / C06_valid_never (Props/C06.v): a structural predicate `valid` decides, for every assignment at once, whether evaluation raises the "
         "invalid-expression error; C06_ahb lifts this to AHB expressions (every generated content evaluation result) and C06_validity_check proves that the model of is_valid_expression's "
-        "try-every-result loop answers true iff every condition part is valid. Correspondence and oracle: all trees <= 3 leaves x all assignments; is_valid_expression vs the structural criterion.",
+        "try-every-result loop answers true iff every condition part is valid. Correspondence and oracle: all trees <= 3 leaves x all assignments; is_valid_expression vs the structural criterion and vs Model/Validity.v.",
         "Trusted: as C04; Model/Validity.v as a model of is_valid_expression (validated by the validity-check oracle on every run).",
         "DESIGN.md section 5 C06",
     ),
@@ -68,7 +68,7 @@ CLAIMED = {
     "C09": (
         "Coq theorems: print/scan round trip for the AHB scanner model, indicator normalisation over callbacks regenerated from source, selection of the first fulfilled part + correspondence (scanner vs Lark, evaluation vs ahbicht) and split/selection oracle",
         "Props/C09.v: C09_split (any number of modal-mark parts in any ASCII case spelling, condition texts over the CONDITION_EXPRESSION alphabet, optional trailing bare mark, scan into exactly these parts in order), "
-        "C09_split_prefix_operator, C09_split_bare; C09_normalise (every case variant of the six indicators maps to its canonical indicator: the obligation the original lower-case prefix-operator defect breaks); "
+        "C09_split_prefix_operator, C09_split_bare, C09_split_sound (conversely, whatever the scanner accepts is the concatenation of the parts it returns, in written order); C09_normalise (every case variant of the six indicators maps to its canonical indicator: the obligation the original lower-case prefix-operator defect breaks); "
         "C09_select / C09_selected_part_is_reported / C09_bare_indicator. Lark's behaviour on the AHB grammar is tied to the scanner model by correspondence on every run.",
         "Trusted: Coq kernel, translators (Gen_enums, Gen_ahbgrammar incl. character data computed with Python's re), hand models of the scanner and of AhbExpressionTransformer (validated by correspondence).",
         "DESIGN.md section 5 C09",
@@ -115,7 +115,7 @@ CLAIMED = {
         "Coq proof over a model of expand_packages/expand_time_conditions on parse trees (incl. the placeholder pass) linked to the C01 parser theorems + exact-tree correspondence and the substitution equation as oracle",
         "Props/C10.v: expansion is the one-level substitution of package leaves by their package trees; the placeholder pass re-inserts every awaited result at the occurrence that produced it (repeated/neighbouring packages); "
         "an unknown package aborts with NotImplementedError; substitution preserves precedence derivations, hence the resolved tree equals modulo runs every parse of the bracketed substituted forest; "
-        "C10_textual_substitution states this at text level, as the property is worded: the parser model applied to the text in which every package is replaced by \"(\" + package text + \")\" returns the flattening of the resolver model's result; "
+        "C10_textual_time_conditions is the same statement for [UB1]/[UB2]/[UB3] with the replacement texts of the regenerated table; C10_textual_substitution states this at text level, as the property is worded: the parser model applied to the text in which every package is replaced by \"(\" + package text + \")\" returns the flattening of the resolver model's result; "
         "UB1/UB2/UB3 expansions over the table regenerated from TimeConditionTransformer (UB3's tree is the model parser's parse of its text, also in brackets).",
         "Trusted: as C01; Gen_timecond translator. Partial: the step from the substituted TEXT to the substituted forest (lexing of the inserted '(...)') is covered by the oracle's exact tree equality on ahbicht, not by a theorem; "
         "the lazy scan_values generator is abstracted to scan order.",
@@ -123,7 +123,7 @@ CLAIMED = {
     ),
     "C18": (
         "Coq proof (lia over regenerated range bounds; combinatorics of itertools product/combinations with filters) + translator validation on 0..3000 + ordered-list correspondence",
-        "Props/C18.v (16 theorems): the number ranges partition all key numbers; extraction lists every key once, sorted, in exactly one category and is a homomorphism for composition; "
+        "Props/C18.v (17 theorems): the number ranges partition all key numbers; extraction lists every key once, sorted, in exactly one category and is a homomorphism for composition; any parse of a written expression carries exactly the atoms of its tokens in written order; "
         "the literal combinations(product(...))-with-filters definition equals the Cartesian product as ORDERED lists for every m, n (hence Permutation, NoDup, length 2^n*3^m).",
         "Trusted: Coq kernel, translator (Gen_ranges, validated on 3036 keys every run), hand model of extraction/sanitize/generate (validated by correspondence as ordered lists). "
         "Interpretations I-C18 (leading zeros) and I-C18b (no keys -> []), see Props/C18.v.",
